@@ -179,10 +179,13 @@ def gen_case(rng, tier):
                 texts.append(r)
             else:
                 atom = rng.choice([('num', rng.choice([0, 1, 5, 77, 255, 300, 4000])), ('label', 'kone'), ('label', 'ktwo'),
-                                   ('label', 'start'), ('label', 'after'), ('label', 'fwd')])
+                                   ('label', 'start'), ('label', 'after'), ('label', 'fwd'),
+                                   ('label', 'kone')] +
+                                  # a character literal is an operand text too (not inside [ ]: the bracket pattern admits no quote)
+                                  ([('char', rng.choice(['@', 'A', '#', '(', '$']))] if k == 'num' else []))
                 if twin and rng.random() < 0.7:
                     atom = rng.choice([('label', 'kone'), ('label', 'ktwo')])
-                t = str(atom[1])
+                t = str(atom[1]) if atom[0] != 'char' else "'" + atom[1] + "'"
                 if k == 'ind':
                     forms.append({'f': 'ind', 'e': atom})
                     texts.append(f'[{t}]')
